@@ -111,7 +111,17 @@ fn filler(recipe: &[u8], total: i64, start: i64, shape: &mut Shape, dev: u8) -> 
                 // an .org must be followed by an item
                 (St::Ins("nop".into(), vec![]), g + 1)
             }
-            7 => (St::Data(DKind::Db, vec![DItem::Str("ab".into())]), 1),
+            7 => {
+                // strings, also with characters of more than one byte: sized in bytes, not characters
+                let texts = ["ab", "\u{e9}", "gr\u{f6}\u{df}e", "\u{b5}s", "a\u{20ac}", "\u{20ac}\u{e9}x"];
+                let t = texts[(*r as usize >> 3) % texts.len()];
+                let words = (t.len() as i64 + 1) / 2;
+                if words <= left {
+                    (St::Data(DKind::Db, vec![DItem::Str(t.into())]), words)
+                } else {
+                    (St::Ins("nop".into(), vec![]), 1)
+                }
+            }
             _ => (St::Ins("nop".into(), vec![]), 1),
         };
         out.push(Ln::st(st));
@@ -231,7 +241,7 @@ pub fn build(c: &RelCase) -> Built {
     prog.push(Ln::st(St::Ins("nop".into(), vec![])));
     let end = if c.d >= 0 { target + 2 } else { addr + 2 };
     prog.push(Ln::label("alt1"));
-    let e = match c.spelling % 4 {
+    let e = match if c.spelling % 6 >= 4 { 1 + (c.k % 3) } else { c.spelling % 4 } {
         1 => {
             let off = c.d + 1;
             if off >= 0 {
@@ -244,7 +254,21 @@ pub fn build(c: &RelCase) -> Built {
         3 => E::bin(BinOp::Sub, E::sym("alt1"), E::Num(end - target)),
         _ => E::sym("tgt"),
     };
-    prog[ins_index] = Ln::st(mk_ins(e));
+    match c.spelling % 6 {
+        4 => {
+            // the instruction comes out of a macro; its target is a compound argument
+            prog[ins_index] = Ln::st(St::Call("c03_jump".into(), vec![Opnd::Ex(e)]));
+            prog.insert(0, Ln::st(St::MacroDef("c03_jump".into(), vec![Ln::st(mk_ins(E::Arg(0)))])));
+        }
+        5 => {
+            // the body computes the target from its parameter next to a tighter-binding neighbour:
+            // pc - @0 with @0 = 3 + k, k = -(d+1) - 3
+            let k = -(c.d + 1) - 3;
+            prog[ins_index] = Ln::st(St::Call("C03_Jump".into(), vec![Opnd::Ex(E::bin(BinOp::Add, E::Num(3), E::num(k)))]));
+            prog.insert(0, Ln::st(St::MacroDef("c03_jump".into(), vec![Ln::st(mk_ins(E::bin(BinOp::Sub, E::Pc, E::Arg(0))))])));
+        }
+        _ => prog[ins_index] = Ln::st(mk_ins(e)),
+    }
     Built { prog, addr, shape, mnemonic: m }
 }
 
@@ -258,7 +282,7 @@ pub fn test(c: &RelCase, ev: &mut Ev, opts: &ModelOpts) -> Result<(), Violation>
     if near || b.shape.two_word || b.shape.odd_db || b.shape.org_gap {
         ev.nt(fp(&text));
     }
-    ev.class(&format!("spelling:{}", ["label", "pc-relative", "label+k", "label-k"][c.spelling as usize % 4]));
+    ev.class(&format!("spelling:{}", ["label", "pc-relative", "label+k", "label-k", "through-macro-argument", "computed-in-macro-body"][c.spelling as usize % 6]));
     if near {
         ev.class("within-2-of-a-limit");
     }
@@ -358,7 +382,7 @@ pub fn clamp_reachable(mut c: RelCase) -> RelCase {
 }
 
 pub fn rel_case() -> impl Strategy<Value = RelCase> {
-    (0usize..22, 0u8..8, 0u8..11, -4000i64..4000, any::<u8>(), proptest::collection::vec(any::<u8>(), 0..12), 0u8..4, any::<u8>(), gen::style(), 0u8..8).prop_map(|(kind, s, near_far, off, prefix, filler, spelling, k, style, dev)| {
+    (0usize..22, 0u8..8, 0u8..11, -4000i64..4000, any::<u8>(), proptest::collection::vec(any::<u8>(), 0..12), 0u8..6, any::<u8>(), gen::style(), 0u8..8).prop_map(|(kind, s, near_far, off, prefix, filler, spelling, k, style, dev)| {
         let ks = kinds();
         let lim = limit(&ks[kind % ks.len()]);
         let d = match near_far {
@@ -384,7 +408,7 @@ pub fn run(ctx: &Ctx) -> Result<Ev, String> {
         for d in distances(lim) {
             for (fi, f) in fillers.iter().enumerate() {
                 let dev = if d.abs() < 700 { (fi % 4) as u8 } else { 0 };
-                det.push(RelCase { kind, s: (kind % 8) as u8, d, prefix: (3 + fi * 5) as u8, filler: f.clone(), spelling: (fi + d.unsigned_abs() as usize) as u8 % 4, k: (fi * 3) as u8, dev, style: Style::CANON });
+                det.push(RelCase { kind, s: (kind % 8) as u8, d, prefix: (3 + fi * 5) as u8, filler: f.clone(), spelling: (fi + d.unsigned_abs() as usize) as u8 % 6, k: (fi * 3) as u8, dev, style: Style::CANON });
             }
         }
     }
